@@ -160,7 +160,8 @@ Theorem C19_flags_current :
   c19_f_pc_copies = true /\ c19_f_std_copies = true /\ c19_f_init_copies = true /\
   c19_f_copy_deep = true /\ c19_f_export_deep = true /\ c19_f_scrip_copies = true /\
   c19_f_scrip_area_copies = true /\ c19_f_esmf_area_copies = true /\
-  c19_f_poly_returns_copy = true /\ c19_f_line_returns_copy = true /\ c19_f_gdf_returns_copy = false.
+  c19_f_poly_returns_copy = true /\ c19_f_line_returns_copy = true /\
+  c19_f_poly_indices_hit_copy = true /\ c19_f_poly_indices_final_copy = true /\ c19_f_gdf_returns_copy = false.
 Proof. exact c19_flags_current. Qed.
 Print Assumptions C19_flags_current.
 
